@@ -10,7 +10,8 @@ verbatim.
 
 MARKUPISH = ["# see <info>docs</info> for details", "label = '<b>bold</b>'", "pattern = '<fg=red>x</>'",
              "# closing </comment> without opening", "weird = 'a < b > c'", "tag = '<unknown>'"]
-BAD_MARKUP = ["broken = '<info>a</comment>'", "colour = '<fg=nosuchcolour>x</>'", "# <error>unclosed", "esc = '\\\\<b>'", "esc2 = r'x \\</info> y'"]
+BAD_MARKUP = ["broken = '<info>a</comment>'", "colour = '<fg=nosuchcolour>x</>'", "# <error>unclosed", "esc = '\\\\<b>'", "esc2 = r'x \\</info> y'",
+              "# opening only: <fg=nosuchcolour> never closed", "tint = '<bg=nope>'"]
 PLAIN_FILL = ["total = 0", "count = 1 + 1  # count", "name = 'été'", "values = [1, 2.5, None, True]", "pass",
               "text = \"double 'quoted'\"", "if len(sys.argv) > 99:\n        limit = 10", "data = {'k': (1, 2)}",
               "flag = not False and (1 or 2)", "x = 1\t# comment after a tab", "y = [\t1,\t2]"]
@@ -114,7 +115,8 @@ def gen_module(r, depth, recursion, style):
 MESSAGES = ["boom", "", "two\nlines", "trailing newline\n", "Ünïcödé ✓ message", "with <info>markup</info> inside",
             "closing </info> only", "mis <info>nested</comment> tags", "bad <fg=nosuchcolour>colour</>",
             "lone < sign and > too", "escaped \\<b> tag", "percent %s {braces}", "x" * 300,
-            "The \"--</error>\" option does not exist.", "<error>already styled</error>", "tab\there", "escaped \\</info> closing tag"]
+            "The \"--</error>\" option does not exist.", "<error>already styled</error>", "tab\there", "escaped \\</info> closing tag",
+            "never closed <fg=chartreuse> colour", "<bg=nope>", "option <options=sparkle> unknown"]
 
 TYPES = ["ValueError", "KeyError", "RuntimeError", "OSError", "AssertionError", "UnicodeDecodeError",
          "Foreign", "WithIntCode", "WithStrCode", "WithZeroCode", "WithFalseCode", "WithHugeCode", "StrRaises", "CliKitLike", "NoSuchOption", "CannotParse",
